@@ -1528,6 +1528,12 @@ class Evaluator:
         if isinstance(obj, OpaqueV) and obj.what == "array0d" and isinstance(idx, TupleV) and not idx.items:
             return obj.payload
         if isinstance(obj, Num):
+            # a crop of sample data done on the array instead of on the signal (data[a:b] handed to like()): the bounds are
+            # subject to the same sign rule as signal-level slice bounds
+            first = idx.items[0] if isinstance(idx, TupleV) and idx.items else idx
+            if obj.tag == "data" and obj.shape and isinstance(first, SliceV) and fr is not None and fr.fi is not None \
+                    and any(isinstance(b_, Num) and not b_.expr.is_number for b_ in (first.start, first.stop)):
+                self.signal_slices.append((fr.fi, node, idx, list(fr.facts)))
             return self.ext.num_getitem(self, obj, idx, fr, node)
         if isinstance(obj, self.ext.NdArr):
             return self.ext.nd_getitem(self, obj, idx, fr, node)
